@@ -154,6 +154,9 @@ func (x *XMLWtr2) writeFieldElement(m meta.Definition, v val.Value) error {
 	case val.FmtDecimal64:
 		f := v.Value().(float64)
 		c.Content = strconv.FormatFloat(f, 'f', -1, 64)
+	case val.FmtEmpty:
+		// RFC7950 Sec 9.11.2 an empty element
+		c.Content = ""
 	default:
 		//case val.FmtString, val.FmtBinary, val.FmtAny:
 		c.Content = v.String()
